@@ -981,6 +981,17 @@ impl Rig {
                 let r = std::fs::remove_dir_all(path);
                 verif::trace::emit(json!({"e": "RemoveDir", "path": path, "ok": r.is_ok()}));
             }
+            "provision_timeup" => {
+                // provisioning finishes by its deadline (the key keeper's two-minute timer): the real handler, writing the
+                // tag files into the directory the service uses (None = config::get_keys_dir())
+                let shared = self.shared.clone();
+                self.rt.block_on(crate::provision::provision_timeup(
+                    None,
+                    shared.get_provision_shared_state(),
+                    shared.get_agent_status_shared_state(),
+                ));
+                verif::trace::emit(json!({"e": "ProvisionTimeup"}));
+            }
             "mark_host_requests" => HOST_TARGETS.lock().unwrap().clear(), // count from here
             "wait_host_requests" => {
                 // wait until the mock hosts have received n requests whose target starts with the given prefix
